@@ -27,7 +27,7 @@ def run(ctx):
     from pero_ocr.char_confidences import greedy_filtration
     rng = ctx.rng
     ctx.rule = ('integer-valued score tensors N<=4, C in 2..6, T in 1..12 with many ties, leading/trailing blanks, all-blank lines, '
-                'repeats split by blanks, first frame non-blank, last class adjacent to blank; exhaustive one-hot arg-max '
+                'repeats split by blanks, first frame non-blank, last class adjacent to blank; float32 frames with one-ulp margins / exact ties and deep-negative raw scores; exhaustive one-hot arg-max '
                 'patterns for C=3, T<=5(quick)/7(thorough); non-trivial = collapse differs from the raw arg-max path and is non-empty')
     ctx.assumptions += ['torch.argmax / numpy argmax return the FIRST maximum on ties (exercised with integer ties)',
                         'log_softmax / softmax of small integer scores preserve order and ties']
@@ -112,6 +112,40 @@ def run(ctx):
                 ctx.sample(dict(C=C, argmax=am, text=eng[n]), limit=5)
             reqs.append(dict(p='C04', op='decode', C=C, frames=frames.astype(int).tolist()))
             impl.append((am, eng[n], st, fl, chars))
+    # numerically extreme score tensors (the property says ALL score tensors): float32 frames whose two best classes differ
+    # by one ulp, and raw (unnormalised) scores far below zero where exp() underflows; engine and stand-alone decoder on the
+    # SAME tensor, both against the collapse of the arg-max of the scores themselves
+    for _ in range(60 if ctx.quick() else 1500):
+        C = rng.randrange(2, 6)
+        T = rng.randrange(1, 9)
+        chars = [chr(97 + i) for i in range(C - 1)]
+        kind = rng.choice(['one-ulp', 'deep-negative'])
+        if kind == 'one-ulp':
+            base = np.array([[rng.uniform(-3, -0.3) for _ in range(C)] for _ in range(T)], dtype=np.float32)
+            for t in range(T):
+                i, j = rng.sample(range(C), 2)
+                top = np.float32(rng.uniform(-1.2, -0.6))
+                base[t, :] = np.minimum(base[t, :], top - np.float32(1.0))
+                base[t, i] = top
+                base[t, j] = np.nextafter(top, np.float32(0)) if rng.random() < 0.7 else top   # one ulp above, or an exact tie
+            frames = base
+        else:
+            frames = np.array([[rng.choice([-110.0, -150.0, -200.0, -104.5, -300.0, -1000.0]) - rng.random() for _ in range(C)] for _ in range(T)], dtype=np.float32)
+        am = [int(np.argmax(f)) for f in frames]
+        exp_s = ''.join(chars[c] for c in ref_collapse(am, C - 1))
+        inp = dict(C=C, frames=[[float(x) for x in f] for f in frames], dtype='float32', kind=kind)
+        ctx.evaluations += 1
+        ctx.count('kind:' + kind)
+        try:
+            eng = list(greedy_decode_ctc(torch.from_numpy(frames.T[None].copy()), chars + ['\u200b']))
+            st = GreedyDecoder(chars + [BLANK_SYMBOL])(frames.copy(), max_unnormalization=np.inf).best_hyp()
+        except Exception as e:
+            ctx.violation('extreme-raises:' + type(e).__name__, 'greedy decoders raised %r on an extreme score tensor' % (e,), inp)
+            continue
+        if len(eng) != 1 or eng[0] != exp_s:
+            ctx.violation('engine:' + kind, 'engine greedy decoder != CTC collapse of the arg-max path (extreme scores)', inp, eng, exp_s)
+        if st != exp_s:
+            ctx.violation('standalone:' + kind, 'stand-alone GreedyDecoder != CTC collapse of the arg-max path (extreme scores)', inp, st, exp_s)
     if ctx.driver_ok:
         rep = common.Driver(ctx).batch(reqs)
         for r, (am, e, s, f, chars), q in zip(rep, impl, reqs):
@@ -144,8 +178,13 @@ def replay(data):
             except Exception as e:
                 print('replay', v['key'], 'raises', repr(e))
             continue
-        fr = np.array(inp['frames'], dtype=float)
+        fr = np.array(inp['frames'], dtype=np.float32 if inp.get('dtype') == 'float32' else float)
         C = inp['C']
+        if inp.get('dtype') == 'float32':
+            from pero_ocr.decoding.decoders import GreedyDecoder, BLANK_SYMBOL
+            chars = [chr(97 + i) for i in range(C - 1)]
+            print('replay', v['key'], 'argmax', [int(np.argmax(f)) for f in fr], 'stand-alone ->',
+                  GreedyDecoder(chars + [BLANK_SYMBOL])(fr.copy(), max_unnormalization=np.inf).best_hyp())
         chars = [chr(97 + i) for i in range(C - 1)]
         out = greedy_decode_ctc(torch.from_numpy(fr.T[None].copy()).float(), chars + ['​'])
         am = [int(np.argmax(f)) for f in fr]
